@@ -4,19 +4,17 @@ From GV Require Import Pack.QuoteModel.
 Import ListNotations.
 Open Scope Z_scope.
 
-(* The round trip load(%q s) = s is FALSE of the code as it stands: whenever IsPrint
-   rejects a valid multi-byte rune, Go writes \uXXXX, which is not a Lua escape.
-   Witness: U+200B ZERO WIDTH SPACE (bytes e2 80 8b). *)
-Lemma quote_load_string_refuted :
-  forall is_print, is_print 8203 = false ->
-  exists s, lua_string_literal (quote is_print s) <> Some s.
+(* Round 1 proved quote_load_string_refuted here (witness U+200B: Go's \\u200b is not Lua).
+   After the repair of format.go (quoteString writes \\u{200b}) the former witness round-trips
+   whatever IsPrint says about it. *)
+Lemma quote_load_u200b :
+  forall is_print, lua_string_literal (quote is_print [226; 128; 139]) = Some [226; 128; 139].
 Proof.
-  intros ip Hp. exists [226; 128; 139].
-  unfold quote. cbn [length quote_go]. 
+  intros ip. unfold quote. cbn [length quote_go].
   change (decode_rune [226; 128; 139]) with (8203, 3%nat).
   cbn [Nat.eqb andb]. unfold escape_rune.
-  change ((8203 =? 34) || (8203 =? 92)) with false. cbv iota. rewrite Hp.
-  vm_compute. discriminate.
+  change ((8203 =? 34) || (8203 =? 92)) with false. cbv iota.
+  destruct (ip 8203); vm_compute; reflexivity.
 Qed.
 
 Fixpoint list_eqb (x y : list Z) : bool :=
@@ -25,8 +23,8 @@ Fixpoint list_eqb (x y : list Z) : bool :=
 (* the hypotheses of a partial theorem would be satisfiable: the round trip does hold on
    representatives of every other escape class *)
 Example quote_load_examples :
-  let ip := is_print_tab [233] in
+  let ip := is_print_tab [233] in   (* U+200B, U+0085, U+10B47D below are not printable *)
   forallb (fun s => match lua_string_literal (quote ip s) with Some s' => list_eqb s s' | None => false end)
     [[]; [0]; [7; 8; 9; 10; 11; 12; 13]; [34; 92; 39]; [97; 0; 49]; [127; 128; 255]; [195; 169]; [195]; [92; 120; 52; 49];
-     [27; 48; 48]; [237; 160; 128]; [192; 128]; [244; 144; 128; 128]] = true.
+     [27; 48; 48]; [237; 160; 128]; [192; 128]; [244; 144; 128; 128]; [226; 128; 139; 49]; [194; 133; 97]; [244; 139; 145; 189; 125]] = true.
 Proof. vm_compute. reflexivity. Qed.
